@@ -106,10 +106,14 @@ def simp_inputs(chk, T):
     corpus = expr_corpus(chk, SMALL_T if T else SMALL_Q + [3], WIDE_T if T else WIDE_Q)
     recs = []
     for (mode, wd), rs in corpus.items():
+        # roots with one operand (not / neg / extensions / slices over every operand kind) and ite roots are few:
+        # always all of them; binary roots are subsampled in the quick tier
+        una = [x for x in rs if len(x["nodes"][-1]["a"]) != 2]
+        bina = [x for x in rs if len(x["nodes"][-1]["a"]) == 2]
         if mode == "small":
-            recs += rs if T else pv.subsample(rs, 4000 if wd <= 2 else 3000, pv.seed() + wd)
+            recs += rs if T else una + pv.subsample(bina, 3500 if wd <= 2 else 2500, pv.seed() + wd)
         else:
-            recs += rs if T else pv.subsample(rs, 1500, pv.seed() + wd)
+            recs += rs if T else pv.subsample(una, 600, pv.seed() + wd) + pv.subsample(bina, 1200, pv.seed() + wd)
     return recs
 
 
@@ -569,6 +573,17 @@ def c18(tier, replay=None):
 def c19(tier, replay=None):
     chk = Check("C19", tier, "model_checking")
     T = chk.thorough()
+    # (M) the six rules as transcribed in Arith.tla: condition => lhs = rhs for all parameters in bounds and ALL operand values
+    import concurrent.futures as cf
+    rules = ["commute-add", "commute-mul", "merge-left-shift", "unmerge-left-shift", "mult-to-add", "left-shift-mult"]
+
+    def one(rule):
+        cfg = pv.write_cfg(chk.work / f"Arith_{rule}.cfg", constants={"MaxOpW": 3 if T else 2, "MaxW": 8 if T else 5, "RuleSel": '{"%s"}' % rule}, invariants=("Sound",))
+        return pv.tlc_ok("Arith", cfg, workers=2, timeout=7200, xmx="2g")
+    with cf.ThreadPoolExecutor(max_workers=6) as ex:
+        for rule, r in zip(rules, ex.map(one, rules)):
+            chk.add_states(r.generated, r.distinct)
+            chk.part("Arith_model_" + rule, states=r.distinct)
     trace = chk.work / "trace.ndjson"
     if replay:
         rep = json.loads(Path(replay).read_text())
@@ -591,7 +606,6 @@ def c19(tier, replay=None):
     sample_lines(chk, trace, 3, lambda r: {"id": r["id"], "info": r.get("info"), "nodes": [[n["op"], n["w"], n["a"], n["by"]] for n in r["nodes"]]})
     chk.part("harness", records=info["records"])
     chk.part("rules", **info.get("rules", {}))
-    chk.add_states(0, 0)
     return chk.finish()
 
 
@@ -642,15 +656,17 @@ def c14(tier, replay=None):
         rep = json.loads(Path(replay).read_text())
         rec = rep["detail"]["record"]
         pv.write_ndjson(vtrace if rec.get("ev") == "ReadValue" else trace, [rec])
-        pv.write_ndjson(trace if rec.get("ev") == "ReadValue" else vtrace, [])
+        other = trace if rec.get("ev") == "ReadValue" else vtrace
+        pv.write_ndjson(other, [rec] if False else [])
         info = {"records": 1, "value_records": 1}
     else:
         pv.write_ndjson(chk.work / "in.ndjson", smt_inputs(chk, T))
         p = pv.pv(["c14", "--in", chk.work / "in.ndjson", "--out", trace, "--values-out", vtrace, "--random", 20000 if T else 2500, "--values", 40000 if T else 5000])
         info = json.loads(p.stdout.strip().splitlines()[-1])
+    empty = {"records": 0}
     st = batch_check(chk, "Trace_C01", trace, lambda rj, rec: {"why": rj["why"], "loc": rj.get("loc", ""), "part": "writer-reader"},
-                     lambda rj, rec: {"record": rec, "tlc": rj}, shards=14)
-    st2 = batch_check(chk, "Trace_C14", vtrace, lambda rj, rec: {"why": rj["why"], "loc": rj.get("loc", "").split("|")[0] if rj["why"].startswith("panic") else "", "cls": rj.get("cls", "")},
+                     lambda rj, rec: {"record": rec, "tlc": rj}, shards=14) if Path(trace).stat().st_size else empty
+    st2 = empty if not Path(vtrace).stat().st_size else batch_check(chk, "Trace_C14", vtrace, lambda rj, rec: {"why": rj["why"], "loc": rj.get("loc", "").split("|")[0] if rj["why"].startswith("panic") else "", "cls": rj.get("cls", "")},
                       lambda rj, rec: {"record": rec, "tlc": rj}, shards=8)
     chk.cov["traces_validated_against_impl"] = st["records"] + st2["records"]
     chk.cov["evaluations"] = st["records"] + st2["records"]
